@@ -47,6 +47,14 @@ def _mentions_over(exprs):
     return any(z3.eq(x, OVER) for x in exprs)
 
 
+UNRECOGNISED = z3.Not(OVER)     # goal of an obligation whose subject has a shape the contract does not recognise: it is not
+                                # provable and its `sat` is not a counter-model -> `unknown`, decided by the native replayer
+
+
+def _goal_unrecognised(goal):
+    return z3.eq(goal, UNRECOGNISED)
+
+
 def _mentions_seqmax(exprs):
     seen, stack = set(), list(exprs)
     while stack:
@@ -126,7 +134,7 @@ def register_refuter():
     from pyvc import solve
     if seqmax_refuter not in solve.EXTRA_REFUTERS:
         solve.EXTRA_REFUTERS.append(seqmax_refuter)
-        solve.SAT_UNTRUSTED.append(lambda pc, goal: _mentions_over(pc) or _mentions_seqmax(list(pc) + [goal]))
+        solve.SAT_UNTRUSTED.append(lambda pc, goal: _mentions_over(pc) or _goal_unrecognised(goal) or _mentions_seqmax(list(pc) + [goal]))
 
 
 STR_GROUP = {}      # id of a str term that is the text of a regex group -> group facts (contracts/c04_regex.py)
